@@ -239,7 +239,7 @@ PROPS = {
         stages=[dict(harness='c09', variant='asan', mode='tree', quick=800, thorough=30000,
                      need=['tree.walks', 'tree.addresses_reported', 'tree.dispatched_back', 'tree.walks_other_options', 'tree.three_digit_indices']),
                 dict(harness='c09', variant='asan', mode='zoo', quick=60, thorough=2000, min_per_shard=1,
-                     need=['zoo.walks', 'zoo.pruned_by_sibling_toggle', 'zoo.pruned_by_own_toggle', 'zoo.pruned_null_pointer', 'zoo.null_pointer_with_toggle_on', 'zoo.pruned_pointer_by_toggle', 'zoo.toggle_name_starts_with_subtree_name', 'zoo.walks_from_object_table', 'zoo.object_table_walk_of_disabled_object', 'zoo.enabled_by_integer_level_multiple_of_256'])],
+                     need=['zoo.walks', 'zoo.pruned_by_sibling_toggle', 'zoo.pruned_by_own_toggle', 'zoo.pruned_null_pointer', 'zoo.null_pointer_with_toggle_on', 'zoo.pruned_pointer_by_toggle', 'zoo.toggle_name_starts_with_subtree_name', 'zoo.walks_from_object_table', 'zoo.walks_below_long_location', 'zoo.object_table_walk_of_disabled_object', 'zoo.enabled_by_integer_level_multiple_of_256'])],
         rule='tree: case = one generated tree (2 default walks + dispatch of up to 150 reported addresses + 3 option variants); zoo: case = one generated application x all 256 runtime states; '
              'distinct = hash of the rendered tree / configuration; every case is non-trivial.',
         exhaustive=dict(quick=False, thorough=False),
